@@ -41,7 +41,7 @@ Needs(b, q, t) == IF q < 0 THEN 4 ELSE IF q > 0 THEN 3
 MCInit == ConInit /\ nbuf = <<>> /\ nout = <<>>
 MCNext == /\ Len(typed) < MaxKeys
           /\ \/ \E c \in Chars : Key(c) /\ NKey(c)
-             \/ inQuote = 0 /\ Enters(typed) < MaxEnters /\ Enter /\ NEnter
+             \/ (inQuote = 0 \/ BreakInLiterals) /\ Enters(typed) < MaxEnters /\ Enter /\ NEnter
           /\ Len(typed') + Needs(buf', inQuote', typed') <= MaxKeys
           /\ Enters(typed') + (IF Complete(buf', typed') THEN 0 ELSE 1) <= MaxEnters
 MCSpec == MCInit /\ [][MCNext]_mcVars
@@ -60,5 +60,5 @@ Emit == (EmitOn /\ Complete(buf', typed')) =>
 \* machine if and only if a literal of the input contains a semicolon
 TaintExact == Complete(buf, typed) => ((nout # out) <=> SemiInQuotes(typed))
 \* and every tainted complete behaviour of the deviation does violate C20
-TaintViolates == (Complete(buf, typed) /\ SemiInQuotes(typed)) => ~Accept(StmtsOf(typed), nout)
+TaintViolates == (Complete(buf, typed) /\ SemiInQuotes(typed)) => ~Accept(StmtsOf(Entered(typed)), nout)
 =============================================================================
